@@ -67,6 +67,8 @@ class Mini:
             self.calls.append((ft, args, kw, node))
             if ft == "cast" and len(args) == 2:
                 return args[1]
+            if ft == "len" and len(args) == 1 and not isinstance(args[0], Sym) and isinstance(args[0], (str, bytes, list, tuple)):
+                return len(args[0])
             if isinstance(f, ast.Attribute) and f.attr == "join" and len(args) == 1 and isinstance(args[0], (list, tuple)):
                 sep = self.ev(f.value)
                 if isinstance(sep, str) and not isinstance(sep, Sym) and all(isinstance(x, str) and not isinstance(x, Sym) for x in args[0]):
@@ -106,6 +108,12 @@ class Mini:
                         return a in b
                     if isinstance(op, ast.NotIn):
                         return a not in b
+                    if isinstance(op, ast.Is) and (a is None or b is None):
+                        return a is b
+                    if isinstance(op, ast.IsNot) and (a is None or b is None):
+                        return a is not b
+                    if isinstance(op, (ast.Lt, ast.LtE, ast.Gt, ast.GtE)) and isinstance(a, (int, float)) and isinstance(b, (int, float)):
+                        return {ast.Lt: a < b, ast.LtE: a <= b, ast.Gt: a > b, ast.GtE: a >= b}[type(op)]
                 except TypeError:
                     pass
         v = self.assume(norm(node))
@@ -114,6 +122,10 @@ class Mini:
         val = self.env.get(norm(node))
         if isinstance(val, bool):
             return val
+        if not isinstance(node, (ast.Compare, ast.BoolOp)):
+            val = self.ev(node)
+            if not isinstance(val, Sym) and (val is None or isinstance(val, (bool, int, str, bytes, list, tuple))):
+                return bool(val)
         return None
 
     def bind(self, target, value):
@@ -139,6 +151,7 @@ class Mini:
             elif isinstance(st, ast.If):
                 c = self.truth(st.test)
                 if c is None:
+                    self.undecided = getattr(self, "undecided", 0) + 1
                     c = True
                 r = self.run(st.body if c else st.orelse)
                 if r:
@@ -410,3 +423,190 @@ def emptiness(fn, test, name):
     if res is None:
         return None
     return (not res) if neg else res
+
+
+# ---------------------------------------------------------------- straight-line value reconstruction
+class _SubstEnv(ast.NodeTransformer):
+    def __init__(self, env):
+        self.env = env
+        self.bound = set()
+
+    def visit_Name(self, node):
+        if isinstance(node.ctx, ast.Load) and node.id in self.env and node.id not in self.bound:
+            import copy
+            return copy.deepcopy(self.env[node.id])
+        return node
+
+    def _comp(self, node):
+        saved = set(self.bound)
+        for g in node.generators:
+            g.iter = self.visit(g.iter)
+            for t in ast.walk(g.target):
+                if isinstance(t, ast.Name):
+                    self.bound.add(t.id)
+            g.ifs = [self.visit(i) for i in g.ifs]
+        if hasattr(node, "elt"):
+            node.elt = self.visit(node.elt)
+        else:
+            node.key = self.visit(node.key)
+            node.value = self.visit(node.value)
+        self.bound = saved
+        return node
+
+    visit_ListComp = visit_GeneratorExp = visit_SetComp = visit_DictComp = _comp
+
+    def visit_Lambda(self, node):
+        saved = set(self.bound)
+        self.bound |= {a.arg for a in node.args.args}
+        node.body = self.visit(node.body)
+        self.bound = saved
+        return node
+
+
+def straightline(stmts, env=None):
+    """Sequential substitution through simple statements: returns (env, return-expression or None, rest) where env maps
+    each local to its value expression over the names live at entry, and rest is the list of statements from the first
+    compound statement on (empty when the block was straight-line to its return)."""
+    import copy
+    env = dict(env or {})
+    for i, st in enumerate(stmts):
+        if isinstance(st, ast.Expr) and isinstance(st.value, ast.Constant):
+            continue
+        if isinstance(st, ast.Pass):
+            continue
+        if isinstance(st, ast.Assign) and len(st.targets) == 1 and isinstance(st.targets[0], ast.Name):
+            env[st.targets[0].id] = _SubstEnv(env).visit(copy.deepcopy(st.value))
+        elif isinstance(st, ast.AnnAssign) and isinstance(st.target, ast.Name) and st.value is not None:
+            env[st.target.id] = _SubstEnv(env).visit(copy.deepcopy(st.value))
+        elif isinstance(st, ast.AugAssign) and isinstance(st.target, ast.Name):
+            cur = copy.deepcopy(env[st.target.id]) if st.target.id in env else ast.Name(id=st.target.id, ctx=ast.Load())
+            env[st.target.id] = ast.BinOp(left=cur, op=st.op, right=_SubstEnv(env).visit(copy.deepcopy(st.value)))
+        elif isinstance(st, ast.Return):
+            val = _SubstEnv(env).visit(copy.deepcopy(st.value)) if st.value is not None else ast.Constant(value=None)
+            return env, val, []
+        else:
+            return env, None, stmts[i:]
+    return env, None, []
+
+
+def canon_ast(e):
+    """alpha-normalised text of an expression AST (list(genexp) = [listcomp])"""
+    import copy
+    e = _Alpha().visit(copy.deepcopy(e))
+    ast.fix_missing_locations(e)
+    return " ".join(ast.unparse(e).split())
+
+
+def straightline_return(fn):
+    """canonical text of the value a straight-line function returns, in terms of its parameters; None when not straight-line"""
+    env, val, rest = straightline(fn.body)
+    if val is None:
+        return None
+    return canon_ast(val)
+
+
+def emptiness_by(test, is_x):
+    """like emptiness() but the container is identified by predicate is_x(expr); also accepts
+    `x is None or len(x) <= 0` (an or of empty-tests) and `x is not None and len(x) > 0` (an and of non-empty tests)."""
+    t = test
+    neg = False
+    while isinstance(t, ast.UnaryOp) and isinstance(t.op, ast.Not):
+        neg = not neg
+        t = t.operand
+
+    def is_len(e):
+        return isinstance(e, ast.Call) and isinstance(e.func, ast.Name) and e.func.id == "len" and len(e.args) == 1 and is_x(e.args[0])
+
+    res = None
+    if is_x(t) or is_len(t):
+        res = False
+    elif isinstance(t, ast.BoolOp):
+        subs = [emptiness_by(v, is_x) for v in t.values]
+        if isinstance(t.op, ast.Or) and all(v is True for v in subs):
+            res = True
+        elif isinstance(t.op, ast.And) and all(v is False for v in subs):
+            res = False
+    elif isinstance(t, ast.Compare) and len(t.ops) == 1:
+        l, op, r = t.left, t.ops[0], t.comparators[0]
+        if is_x(l) and isinstance(r, ast.Constant) and r.value is None and isinstance(op, (ast.Is, ast.Eq)):
+            res = True
+        elif is_x(l) and isinstance(r, ast.Constant) and r.value is None and isinstance(op, (ast.IsNot, ast.NotEq)):
+            res = False
+        else:
+            flip = {ast.Lt: ast.Gt, ast.Gt: ast.Lt, ast.LtE: ast.GtE, ast.GtE: ast.LtE, ast.Eq: ast.Eq, ast.NotEq: ast.NotEq}
+            if is_len(r) and isinstance(l, ast.Constant) and type(op) in flip:
+                l, r, op = r, l, flip[type(op)]()
+            if is_len(l) and isinstance(r, ast.Constant) and isinstance(r.value, int) and not isinstance(r.value, bool):
+                k = r.value
+                if (isinstance(op, ast.LtE) and k == 0) or (isinstance(op, ast.Eq) and k == 0) or (isinstance(op, ast.Lt) and k == 1):
+                    res = True
+                elif (isinstance(op, ast.Gt) and k == 0) or (isinstance(op, ast.NotEq) and k == 0) or (isinstance(op, ast.GtE) and k == 1):
+                    res = False
+    if res is None:
+        return None
+    return (not res) if neg else res
+
+
+def grow_multiset(stmts, L):
+    """how list L grows in a statement block, as [(count expr or None for 1, element expr, node)]; None when some
+    growth is not one of: L.append(E) | for _ in range(N): L.append(E) | L.extend(E for _ in range(N)) |
+    L.extend([E] * N) | L += [E] * N | L += [E, ...]"""
+    out = []
+
+    def rng(it):
+        if isinstance(it, ast.Call) and isinstance(it.func, ast.Name) and it.func.id == "range" and len(it.args) == 1 and not it.keywords:
+            return it.args[0]
+        return None
+
+    def times(e):
+        if isinstance(e, ast.BinOp) and isinstance(e.op, ast.Mult):
+            for a, b in ((e.left, e.right), (e.right, e.left)):
+                if isinstance(a, ast.List) and len(a.elts) == 1:
+                    return b, a.elts[0]
+        return None
+
+    def seq(e, node):
+        tm = times(e)
+        if tm:
+            out.append((tm[0], tm[1], node))
+            return True
+        if isinstance(e, (ast.GeneratorExp, ast.ListComp)) and len(e.generators) == 1 and not e.generators[0].ifs and rng(e.generators[0].iter) is not None:
+            bound = {n.id for n in ast.walk(e.generators[0].target) if isinstance(n, ast.Name)}
+            if not any(isinstance(n, ast.Name) and n.id in bound for n in ast.walk(e.elt)):
+                out.append((rng(e.generators[0].iter), e.elt, node))
+                return True
+        if isinstance(e, ast.List):
+            for x in e.elts:
+                out.append((None, x, node))
+            return True
+        return False
+
+    def visit(sts, mult):
+        for st in sts:
+            if isinstance(st, ast.For) and rng(st.iter) is not None and mult is None and not st.orelse:
+                bound = {n.id for n in ast.walk(st.target) if isinstance(n, ast.Name)}
+                before = len(out)
+                if not visit(st.body, rng(st.iter)):
+                    return False
+                for c, e, n in out[before:]:
+                    if any(isinstance(x, ast.Name) and x.id in bound for x in ast.walk(e)):
+                        return False
+                continue
+            evs = list(grow_events(st, L))
+            if not evs:
+                if isinstance(st, (ast.For, ast.While, ast.If, ast.Try, ast.With)) and any(True for _ in grow_events(st, L)):
+                    return False
+                continue
+            if len(evs) != 1 or not isinstance(st, (ast.Expr, ast.AugAssign, ast.Assign)):
+                return False
+            n, kind, v = evs[0]
+            if kind == "append":
+                out.append((mult, v, n))
+            elif kind in ("extend", "iadd", "concat") and mult is None:
+                if not seq(v, n):
+                    return False
+            else:
+                return False
+        return True
+
+    return out if visit(stmts, None) else None
